@@ -180,7 +180,11 @@ class Mem:
             off=bv(p.off,64); s.checks.append((p.obj,off,nbytes,o['size'],'store'))
             for k in range(nbytes): o['arr']=z3.Store(o['arr'],off+k,z3.Extract(8*k+7,8*k,bv(val,8*nbytes)))
             return
-        assert is_c(p.off), 'symbolic store offset'
+        if not is_c(p.off):
+            s.checks.append((p.obj,p.off,nbytes,o['size'],'store'))
+            for k in sorted(k for k in o['ch'] if o['ch'][k][1]==nbytes and not isinstance(o['ch'][k][0],Ptr)):
+                old=o['ch'][k][0]; o['ch'][k]=(z3.If(p.off==k,bv(val,8*nbytes),bv(old,8*nbytes)),nbytes)
+            return
         o=s.objs[p.obj]; assert 0<=p.off and p.off+nbytes<=o['size'], ('OOB store',p,nbytes)
         s._clear(o,p.off,nbytes)
         for k in range(nbytes): o['bytes'].pop(p.off+k,None)
@@ -214,7 +218,23 @@ class Mem:
 
 # ---------------- interpreter
 class Interp:
-    def __init__(s,mod,mem=None): s.mod=mod; s.mem=mem or Mem(); s.tp=mod.tp; s.gl={}; s.steps=0; s.hooks={}
+    def __init__(s,mod,mem=None): s.mod=mod; s.mem=mem or Mem(); s.tp=mod.tp; s.gl={}; s.steps=0; s.hooks={}; s.fork={'prefix':[],'taken':[],'pc':[],'pending':[],'queries':0}
+    # ---- forking by re-execution: decisions are replayed from a prefix, new ones are explored DFS
+    def decide(s,c):
+        cs=z3.simplify(c)
+        if z3.is_bv_value(cs): return cs.as_long()
+        fk=s.fork; i=len(fk['taken'])
+        if i<len(fk['prefix']): ch=fk['prefix'][i]
+        else:
+            sol=z3.Solver(); sol.add(*fk['pc']); feas=[]
+            for v in (1,0):
+                sol.push(); sol.add(c==v); fk['queries']+=1
+                if sol.check()==z3.sat: feas.append(v)
+                sol.pop()
+            assert feas,'infeasible path'
+            ch=feas[0]
+            if len(feas)==2: fk['pending'].append(fk['prefix'][:i]+fk['taken'][len(fk['prefix']):]+[feas[1]]) if False else fk['pending'].append(fk['taken']+[feas[1]])
+        fk['taken'].append(ch); fk['pc'].append(c==ch); return ch
     def glob(s,name):
         if name in s.gl: return s.gl[name]
         txt=s.mod.globals[name]
@@ -351,12 +371,15 @@ class Interp:
             if rest.startswith('label'): return ('br',rest.split('%')[1].strip())
             parts=split_top(rest); c=s.typed(env,parts[0])[1]
             if not is_c(c):
-                c=z3.simplify(c)
-                if z3.is_bv_value(c): c=c.as_long()
-                else: raise Exception('symbolic branch: %s'%str(c)[:200])
+                c=s.decide(c)
             return ('br',parts[1 if c else 2].split('%')[1].strip())
         if op=='switch':
-            m=re.match(r'(.*?), label %([\w.$-]+) \[(.*)\]$',rest); t,v=s.typed(env,m.group(1)); assert is_c(v),'symbolic switch'
+            m=re.match(r'(.*?), label %([\w.$-]+) \[(.*)\]$',rest); t,v=s.typed(env,m.group(1))
+            if not is_c(v):
+                w=resolve(t).w
+                for mm in re.finditer(r'i\d+ (-?\d+), label %([\w.$-]+)',m.group(3)):
+                    if s.decide(z3.If(v==(int(mm.group(1))&mask(w)),z3.BitVecVal(1,1),z3.BitVecVal(0,1))): return ('br',mm.group(2))
+                return ('br',m.group(2))
             for mm in re.finditer(r'i\d+ (-?\d+), label %([\w.$-]+)',m.group(3)):
                 if int(mm.group(1))&mask(resolve(t).w)==v: return ('br',mm.group(2))
             return ('br',m.group(2))
@@ -421,6 +444,12 @@ class Interp:
                 if c==0: return a
                 return binop('or',binop('shl',a,c,w),binop('lshr',b,w-c,w),w)
             return vecmap3(f,a,b,c)
+        if fn.startswith('llvm.ctpop'):
+            a=args[0]; w=resolve(rt).w
+            if is_c(a): return bin(a).count('1')
+            t=z3.BitVecVal(0,w)
+            for i in range(w): t=t+z3.ZeroExt(w-1,z3.Extract(i,i,a))
+            return t
         raise Exception('intrinsic? '+fn)
 
 SHL={}; KEEP=[]
@@ -521,3 +550,12 @@ def parse_cstr(txt):
         if sx[i]=='\\': out.append(int(sx[i+1:i+3],16)); i+=3
         else: out.append(ord(sx[i])); i+=1
     return out
+
+def explore(run, shared=None, limit=10000):
+    """run(fork) executes the harness once under the decision prefix in fork['prefix']; returns per-path result"""
+    pending=[[]]; results=[]; q=0
+    while pending:
+        prefix=pending.pop(); fk={'prefix':prefix,'taken':[],'pc':[],'pending':[],'queries':0}
+        r=run(fk); results.append((list(fk['taken']),list(fk['pc']),r)); pending+=fk['pending']; q+=fk['queries']
+        assert len(results)<=limit,'fork bound exceeded (unwinding assertion)'
+    return results,q
